@@ -42,6 +42,7 @@ def run(ctx):
     ctx.rule("R2", "flush precedes checkpoint on every path; flush chain reaches every handle")
     ctx.rule("R3", "checkpoint writer/reader key agreement per nested dictionary")
     ctx.rule("R4", "loop-carried state of every engine's step is checkpointed and restored, or re-established by initialize(), or an inventoried scratch/report attribute")
+    ctx.rule("R9", "the resumed engine is constructed with every recorded setting its class accepts (per engine type, on the path that type takes)")
     ctx.rule("R5", "every sink opened on the resume path positions itself from step_offset")
     ctx.rule("R6", "RNG pairing: captured, restored after construction and before run, no seed on resume, global generator only")
     ctx.rule("R7", "absolute step labels: loop over range(step_offset, steps); step_offset never added to an absolute index")
@@ -49,6 +50,7 @@ def run(ctx):
     _r1(ctx, repo, md, nad)
     _r2(ctx, md)
     _r4(ctx, repo)
+    _r9_ctor_kwargs(ctx, repo)
     _r3(ctx, repo, md, nad)
     _r5(ctx, md)
     _r6(ctx, repo, md, nad)
@@ -774,3 +776,111 @@ def _reset_to_init_constant(ls, cctx, a):
                 if any(norm(t) == a for t in tg) and isinstance(st.value, _ast.Constant) and st.value.value == last_const:
                     return True
     return False
+
+
+def _r9_ctor_kwargs(ctx, repo, rid="R9"):
+    """run_from_checkpoint rebuilds the engine as md_classes[md_type](**kwargs).  For every engine type T the path that T takes through
+    the function (tests on md_type are decided by constant folding, everything else is left open) must store kwargs[K] before the
+    constructor call for every setting K that (a) a checkpoint writer records at the top level and (b) the class (its __init__ chain)
+    accepts as a named parameter.  A setting that is recorded but not handed back makes the resumed run use the constructor default
+    (e.g. damp=None: a thermostatted XL-BOMD run continues as NVE)."""
+    MDm = "seqm/MolecularDynamics.py"
+    md = repo.mod(MDm)
+    f = md.func("Molecular_Dynamics_Basic.run_from_checkpoint")
+    g = build_cfg(f)
+    # engine table
+    tbl = None
+    for st in ast.walk(f):
+        if isinstance(st, ast.Assign) and isinstance(st.value, ast.Dict) and st.value.keys and all(isinstance(k, ast.Constant) and isinstance(k.value, str) for k in st.value.keys) \
+                and all(isinstance(v, ast.Name) and v.id in md.classes for v in st.value.values):
+            tbl = {k.value: v.id for k, v in zip(st.value.keys, st.value.values)}
+    if not tbl:
+        raise AnalysisError("run_from_checkpoint: engine table not found")
+    # recorded top-level keys
+    recorded = set()
+    for q, fn in md.functions.items():
+        if q.split(".")[-1] in ("_build_checkpoint_base", "save_checkpoint"):
+            for d in ast.walk(fn):
+                if isinstance(d, ast.Dict):
+                    par = md.parents.get(d)
+                    if isinstance(par, ast.Return) or (isinstance(par, ast.Call) and callee_attr(par) == "update"):
+                        recorded |= {k.value for k in d.keys if isinstance(k, ast.Constant) and isinstance(k.value, str)}
+                if isinstance(d, ast.Assign) and isinstance(d.targets[0], ast.Subscript) and norm(d.targets[0].value) == "ckpt" and isinstance(d.targets[0].slice, ast.Constant):
+                    recorded.add(d.targets[0].slice.value)
+    base_f = md.func("Molecular_Dynamics_Basic._checkpoint_init_kwargs")
+    base_keys = set()
+    for d in ast.walk(base_f):
+        if isinstance(d, ast.Dict):
+            base_keys |= {k.value for k in d.keys if isinstance(k, ast.Constant)}
+    ctor = [n.id for n in g.nodes if n.kind == "stmt" and any(isinstance(c.func, ast.Name) and c.func.id == "md_cls" for c in calls_in(n.stmt))]
+    if not ctor:
+        raise AnalysisError("run_from_checkpoint: constructor call md_cls(**kwargs) not found")
+    stores = {}
+    for n in g.nodes:
+        if n.kind == "stmt" and isinstance(n.stmt, ast.Assign) and isinstance(n.stmt.targets[0], ast.Subscript) and norm(n.stmt.targets[0].value) == "kwargs" \
+                and isinstance(n.stmt.targets[0].slice, ast.Constant):
+            stores.setdefault(n.stmt.targets[0].slice.value, set()).add(n.id)
+
+    def decide(test, T):
+        """fold tests that only involve md_type / the engine table"""
+        if isinstance(test, ast.BoolOp):
+            vs = [decide(v, T) for v in test.values]
+            if isinstance(test.op, ast.And):
+                return False if any(v is False for v in vs) else (True if all(v is True for v in vs) else None)
+            return True if any(v is True for v in vs) else (False if all(v is False for v in vs) else None)
+        if isinstance(test, ast.UnaryOp) and isinstance(test.op, ast.Not):
+            v = decide(test.operand, T)
+            return None if v is None else not v
+        if isinstance(test, ast.Compare) and len(test.ops) == 1 and norm(test.left) == "md_type":
+            r = test.comparators[0]
+            if isinstance(r, ast.Name) and r.id == "md_classes":
+                vals = list(tbl)
+            elif isinstance(r, (ast.Tuple, ast.List, ast.Set)) and all(isinstance(e, ast.Constant) for e in r.elts):
+                vals = [e.value for e in r.elts]
+            elif isinstance(r, ast.Constant):
+                vals = r.value
+            else:
+                return None
+            op = test.ops[0]
+            if isinstance(op, ast.In):
+                return T in vals
+            if isinstance(op, ast.NotIn):
+                return T not in vals
+            if isinstance(op, ast.Eq):
+                return T == vals
+            if isinstance(op, ast.NotEq):
+                return T != vals
+        return None
+    n = 0
+    for T, cname in sorted(tbl.items()):
+        params = set()
+        for cm, cc in repo.mro(md, md.classes[cname]):
+            for st in cc.body:
+                if isinstance(st, ast.FunctionDef) and st.name == "__init__":
+                    params |= {a.arg for a in st.args.args + st.args.kwonlyargs if a.arg != "self"}
+        required = sorted((params & recorded) - base_keys)
+        # nodes feasible for T
+        seen = {g.entry}
+        todo = [g.entry]
+        while todo:
+            x = todo.pop()
+            node = g.nodes[x]
+            dec = decide(node.expr, T) if node.kind in ("if", "while") and node.expr is not None else None
+            for b, lab in g.succ[x]:
+                if dec is not None and lab in ("true", "false") and (lab == "true") != dec:
+                    continue
+                if b not in seen:
+                    seen.add(b)
+                    todo.append(b)
+        infeasible = {i for i in range(len(g.nodes)) if i not in seen}
+        for K in required:
+            n += 1
+            sk = stores.get(K, set()) & seen
+            reach = g.reachable(g.entry, avoid=sk | infeasible) | {g.entry}
+            ok = bool(sk) and not any(c in reach for c in ctor)
+            ctx.check(ok, rid, md, f, "Molecular_Dynamics_Basic.run_from_checkpoint", f"{T}: kwargs['{K}']",
+                      f"{T} ({cname}) is rebuilt with the recorded `{K}`",
+                      f"engine type {T}: the checkpoint records `{K}` and {cname}.__init__ accepts it, but on the path this type takes the constructor is reached without "
+                      f"kwargs['{K}'] being set: the resumed engine runs with the constructor default (for damp: the thermostat of a damped run is silently switched off on resume)")
+    if n < 4:
+        raise AnalysisError(f"only {n} constructor settings inventoried")
